@@ -53,7 +53,20 @@ WaitOK(st, e) ==
 \* by an implementation: the property leaves it open
 DropErr(st) == [st EXCEPT !.tok = [t \in {u \in DOMAIN @ : u.st \notin {"err", "dead"}} |-> @[t]]]
 
-StepSet0(st, e) ==
+\* An event whose delivery had RETURNED while the host was waiting reached the boundary event
+\* "while the activity waits for its answer", whatever the order in which the boundary event's
+\* own goroutine and a later answer are then scheduled: before an answer is applied, such
+\* deliveries are worked off (their "observed" record, which comes later, then finds nothing
+\* left to explain and is skipped).
+RECURSIVE FlushBoundary(_, _)
+FlushBoundary(st, host) ==
+  LET P == {<<c, j>> \in UNION {{<<c, j>> : j \in Processable(st, c)} : c \in BoundariesOf(st.p, host)} :
+               Listeners(st, c) # {} /\ st.inbox[c][j].done /\ ~st.inbox[c][j].racy}
+  IN  IF P = {} THEN st
+      ELSE LET x == CHOOSE x \in P : TRUE IN FlushBoundary(CloseTau(ObserveMove(st, x[1], x[2]).s), host)
+
+StepSet0(st0, e) ==
+  LET st == IF e.ev \in {"ans", "ansc"} THEN FlushBoundary(st0, e.node) ELSE st0 IN
   CASE e.ev = "started" -> IF e.ok THEN {st} ELSE {}
     [] e.ev = "req"     -> Matching(st, Lab("req", e.node, e.occ))
     [] e.ev = "end"     -> Matching(st, Lab("end", e.node, 0))
@@ -141,7 +154,7 @@ TraceNext ==
   /\ l' = l + 1
   /\ LET e == Log[l] IN
      IF e.ev = "init"
-     THEN /\ s' = CloseTau(Started(InitState(e.n + 1)))
+     THEN /\ s' = CloseTau(Started([InitState(e.n + 1) EXCEPT !.asis = e.ok]))
           /\ ok' = TRUE
      ELSE IF ~ok
      THEN UNCHANGED <<s, ok>>
